@@ -980,7 +980,12 @@ impl<'a> G<'a> {
                 0 => ("".into(), None),                       // include;
                 1 => ("3".into(), None),                      // include 3;
                 2 => ("\"0101\"".into(), None),               // a bit string
-                _ => (format!("\"a\\q{}\"", name), None),     // invalid escape
+                // invalid escape (quote characters of the name escaped, so that the literal ends
+                // where it should)
+                _ => (
+                    format!("\"a\\q{}\"", name.replace('\\', "\\\\").replace('"', "\\\"")),
+                    None,
+                ),
             };
         }
         let k = if self.sw.odd_spellings { self.r.below(16) } else { self.r.below(4) + 12 };
